@@ -26,7 +26,7 @@ func init() {
 		Assumptions: []string{"memguard.NewBufferFromBytes wipes its argument when it returns a live buffer (verified against the module-cache source in thorough tier)", "aliases are flow-insensitive (can hide a miss, never invent one)"},
 		Tech:        "static analysis: must-release (wipe-or-hand-over) dataflow on SSA over byte-slice sources, all CFG paths incl. error exits",
 		NeedU1:      true,
-		Rules:       []func(*Ctx){ruleC10Wipe, ruleC10NewCryptoKeyWipes, ruleC10FactoryWipes, ruleC10WipeNotEarly},
+		Rules:       []func(*Ctx){ruleC10Wipe, ruleC10NewCryptoKeyWipes, ruleC10FactoryWipes, ruleC10WipeNotEarly, ruleC10AccessorErrorDiscards, ruleC10NoUnwipedCopies},
 	})
 }
 
@@ -461,4 +461,183 @@ func ruleC10WipeNotEarly(c *Ctx) {
 			})
 		}
 	}
+}
+
+// ruleC10AccessorErrorDiscards: securememory's WithBytesFunc returns the action's result TOGETHER with an error when the
+// release step (re-protecting the pages) fails after the action succeeded. The action's result is plaintext key material
+// on the unwrap paths, and every SDK caller drops the result on `err != nil` — so the funnel through which the SDK
+// reaches an accessor must wipe what it got before reporting the error.
+func ruleC10AccessorErrorDiscards(c *Ctx) {
+	u := c.U1
+	c.rule("C10.accessor-error-discards-result", "every call in the SDK of a bytes accessor's WithBytesFunc (securememory.Secret / internal.BytesFuncAccessor) either forwards both results from inside an accessor implementation (a method named WithBytesFunc), or passes MemClr(result) on the err != nil edge and returns nil for the data: an accessor that fails after its action ran hands back the action's plaintext", 2)
+	n := 0
+	for _, f := range u.RepoFuncs {
+		if f.Pkg == nil || f.Blocks == nil || !strings.HasPrefix(f.Pkg.Pkg.Path(), modApp) || strings.Contains(f.Pkg.Pkg.Path(), "/mocks") {
+			continue
+		}
+		allInstrs(f, func(i ssa.Instruction) {
+			cv, ok := i.(*ssa.Call)
+			if !ok || !cv.Call.IsInvoke() || cv.Call.Method.Name() != "WithBytesFunc" {
+				return
+			}
+			n++
+			c.FuncsAnalysed[shortName(f)] = true
+			construct := trimPkgDirs(shortName(f)) + "/WithBytesFunc"
+			var data, errv ssa.Value
+			for _, pr := range resultsOfType(cv, isByteSlice) {
+				data = pr[0]
+			}
+			for _, pr := range resultsOfType(cv, isErrorType) {
+				errv = pr[0]
+			}
+			// forwarding: every return that follows returns the call's own pair
+			forwards := true
+			for _, r := range returnsOf(f) {
+				if !reaches(cv, r) {
+					continue
+				}
+				if len(r.Results) != 2 {
+					forwards = false
+					continue
+				}
+				r0, r1 := resolve(returnedValue(r, 0)), resolve(returnedValue(r, 1))
+				ex0, ok0 := r0.(*ssa.Extract)
+				ex1, ok1 := r1.(*ssa.Extract)
+				if !(ok0 && ok1 && ex0.Tuple == ssa.Value(cv) && ex1.Tuple == ssa.Value(cv)) {
+					forwards = false
+				}
+			}
+			if forwards {
+				if f.Name() == "WithBytesFunc" && f.Signature.Recv() != nil {
+					c.ok(construct, u.ipos(i), "accessor implementation forwarding to its secret (obligation is with its callers)")
+				} else {
+					c.bad(construct, u.ipos(i), "the accessor's (result, error) pair is returned unchanged, and the SDK's callers drop the result whenever err != nil: when the accessor fails after its action ran (release/re-protect failure) the unwrapped plaintext key stays on the heap un-wiped")
+				}
+				return
+			}
+			if data == nil || errv == nil {
+				c.undecided(construct, u.ipos(i), "results of the accessor call are not both extracted")
+				return
+			}
+			// on the err != nil edge: MemClr(data) before every return, and the data result is nil
+			okAll, seen := true, false
+			for _, b := range f.Blocks {
+				for _, s := range b.Succs {
+					for _, fct := range edgeFacts(b, s) {
+						x, isNil, isT := nilTest(fct)
+						if !isT || isNil || resolve(x) != resolve(errv) {
+							continue
+						}
+						seen = true
+						wiped, _ := mustPass(s, 0, func(j ssa.Instruction) bool {
+							if g := staticCallee(j); g != nil && funcFullName(g) == fnMemClr {
+								return resolve(callOf(j).Args[0]) == resolve(data)
+							}
+							return false
+						}, nil)
+						if !wiped {
+							okAll = false
+						}
+					}
+				}
+			}
+			c.check(seen && okAll, construct, u.ipos(i), "MemClr(result) on the err != nil edge", "the accessor's result is not wiped on the err != nil edge: an accessor that fails after its action ran leaves the unwrapped plaintext key on the heap")
+		})
+	}
+	if n < 2 {
+		c.bad("accessor-calls", "", "fewer WithBytesFunc call sites than expected in the SDK")
+	}
+}
+
+// ruleC10NoUnwipedCopies: a copy of plaintext key bytes is itself plaintext key material with its own wipe obligation.
+func ruleC10NoUnwipedCopies(c *Ctx) {
+	u := c.U1
+	c.rule("C10.no-unwiped-copies", "wherever plaintext key bytes (a key-unwrap result, or a `.Plaintext` field of a KMS output / data-key struct) are copied — append(fresh, x...), copy(dst, x), bytes.Clone — the copy is wiped on every path to return of the copying function; they are never converted to a string (which cannot be wiped)", 1)
+	a := &c10{u: u}
+	a.computeSummaries()
+	bufRules := &ownRules{
+		isRelease: func(i ssa.Instruction, al valueSet) bool {
+			arg, ok := wipeArg(i)
+			return ok && (al[arg] || al[strip(arg)])
+		},
+		consumers: map[string][]int{pkgInt + ".NewCryptoKey": {3}},
+	}
+	n, sites := 0, 0
+	for _, f := range u.RepoFuncs {
+		if f.Pkg == nil || f.Blocks == nil || !strings.HasPrefix(f.Pkg.Pkg.Path(), modApp) {
+			continue
+		}
+		n++
+		plain := valueSet{}
+		allInstrs(f, func(i ssa.Instruction) {
+			for _, pr := range a.sourceResults(i) {
+				if pr[0] != nil {
+					for v := range aliasClosure(pr[0], &ownRules{}) {
+						plain[v] = true
+					}
+				}
+			}
+		})
+		isPlain := func(v ssa.Value) bool {
+			if plain[v] || plain[strip(v)] {
+				return true
+			}
+			if !isByteSlice(v.Type()) {
+				return false
+			}
+			return strings.HasSuffix(trimAddr(accessPath(v)), ".Plaintext")
+		}
+		for _, cs := range plaintextCopies(f, isPlain) {
+			sites++
+			construct := trimPkgDirs(shortName(f)) + "/" + cs.What
+			if cs.Val == nil {
+				c.bad(construct, u.ipos(cs.Instr), "plaintext key bytes are converted to a string: the copy is immutable and can never be wiped")
+				continue
+			}
+			out := checkOwned(cs.Instr, cs.Val, nil, bufRules)
+			if out.OK {
+				c.ok(construct, u.ipos(cs.Instr), "the copy is wiped / handed to NewCryptoKey / returned on every path")
+			} else {
+				c.bad(construct, u.ipos(cs.Instr), "a copy of plaintext key bytes is made and not wiped on every path to return: the original's wipe does not reach the copy", u.tracePositions(out.Trace)...)
+			}
+		}
+	}
+	if sites == 0 {
+		c.ok("sdk/plaintext-copies", "", fmt.Sprintf("no copy of plaintext key bytes in %d functions", n))
+	}
+}
+
+type plainCopy struct {
+	Instr ssa.Instruction
+	Val   ssa.Value // the copy (nil for a string conversion)
+	What  string
+}
+
+// plaintextCopies: instructions of f that copy bytes for which isPlain holds into a new buffer.
+func plaintextCopies(f *ssa.Function, isPlain func(ssa.Value) bool) []plainCopy {
+	var out []plainCopy
+	allInstrs(f, func(i ssa.Instruction) {
+		switch x := i.(type) {
+		case *ssa.Convert:
+			if b, ok := x.Type().Underlying().(*types.Basic); ok && b.Kind() == types.String && isPlain(x.X) {
+				out = append(out, plainCopy{i, nil, "string(plaintext)"})
+			}
+		case *ssa.Call:
+			if bi, ok := x.Call.Value.(*ssa.Builtin); ok {
+				switch bi.Name() {
+				case "append":
+					if len(x.Call.Args) == 2 && isPlain(x.Call.Args[1]) && !isPlain(x.Call.Args[0]) && isByteSlice(x.Type()) {
+						out = append(out, plainCopy{i, x, "append(…, plaintext...)"})
+					}
+				case "copy":
+					if len(x.Call.Args) == 2 && isPlain(x.Call.Args[1]) && !isPlain(x.Call.Args[0]) {
+						out = append(out, plainCopy{i, x.Call.Args[0], "copy(dst, plaintext)"})
+					}
+				}
+			} else if g := staticCallee(x); g != nil && (funcFullName(g) == "bytes.Clone" || funcFullName(g) == "slices.Clone") && len(x.Call.Args) == 1 && isPlain(x.Call.Args[0]) {
+				out = append(out, plainCopy{i, x, funcFullName(g) + "(plaintext)"})
+			}
+		}
+	})
+	return out
 }
